@@ -19,6 +19,11 @@
 // StrictArray, made with the constructor or obtained by decoding, compared
 // with an ordered-map model of the value tree the history denotes.
 //
+// Family "nearvalid" (nearvalid.go): the encodings of small wire trees with
+// one byte substituted, deleted or inserted, or a container terminator replaced
+// by a named / bare / missing one, in front of a sentinel value: whenever the
+// library accepts such a string, Size() must be the bytes the decoder consumed.
+//
 // Violation keys are "<family>/<clause>/<feature>" where the feature is found
 // by neutralising one alphabet element at a time (non-empty strict arrays ->
 // null, repeated keys renamed, count hints made honest, ...) until the case
@@ -361,7 +366,7 @@ func run(c *hl.Ctx) {
 		"observed by the independent AMF0 decoder. Family bytes: reference encodings of ALL wire-level trees with <= M nodes (keys with repetition, empty key, " +
 		"ECMA count hints n/0/n+1/n-1/0xFFFFFFFF) x suffix {none, stray byte, another value}; plus boolean body bytes 0..255. " +
 		"Non-trivial = distinct case (hash of family + encoding) that the library marshalled/decoded successfully and that passed every clause; " +
-		"strings the library rejects are counted separately (bytes_rejected_by_library) and are not non-trivial." + historyRule)
+		"strings the library rejects are counted separately (bytes_rejected_by_library) and are not non-trivial." + historyRule + nearValidRule)
 	c.Assume("the reference AMF0 codec (engine/ref/amf0ref, written from amf0_spec_121207) is correct; it is cross-checked against itself on every byte string",
 		"string contents are fixed per length class (0, 1, 2, 65535 bytes); number alphabet is the listed 11 bit patterns",
 		"strict-array elements are given the keys the API demands by a fixed rotation over {\"0\",\"\",\"b\",\"ab\"} (decimal indices beyond 4 elements)")
@@ -393,6 +398,8 @@ func run(c *hl.Ctx) {
 	}
 	// family history (history.go): small, so it runs first
 	idx = runHistory(c, idx, 0, 4)
+	// family nearvalid (nearvalid.go): strings one edit away from the encodings of small wire trees
+	idx = runNearValid(c, idx, 0)
 	// simplest first across profiles: interleave by node count
 	maxN := 0
 	for _, p := range api {
@@ -488,6 +495,9 @@ func run(c *hl.Ctx) {
 	}
 	c.Info("bytes_wire_trees_enumerated", widx)
 	if c.Thorough() && !c.Expired() {
+		idx = runNearValid(c, idx, 1)
+	}
+	if c.Thorough() && !c.Expired() {
 		runHistory(c, idx, 5, 5)
 	}
 }
@@ -514,6 +524,12 @@ func replay(c *hl.Ctx, raw json.RawMessage) {
 		}
 		b, first := cs.wireCase.bytes()
 		checkBytes(c, &cs.wireCase, b, first)
+	case "nearvalid":
+		var cs nvCase
+		if err := json.Unmarshal(raw, &cs); err != nil {
+			panic(err)
+		}
+		replayNear(c, &cs)
 	case "history":
 		var cs histCase
 		if err := json.Unmarshal(raw, &cs); err != nil {
